@@ -39,7 +39,7 @@ enum ProbeId { P_rollover, P_rollover_all_generations_present, P_restart_on_empt
                P_crash_after_last_rename_before_open, P_crash_at_open, P_crash_outside_roll, P_torn_tail_glued,
                P_inflight_complete_after_crash, P_inflight_absent_after_crash, P_directory_created_by_policy,
                P_max_gen_one, P_oversized_message, P_recovery_rolled_twice, P_files_handler_wrapper, P_long_entry, P_new_series_after_date_change, P_ten_or_more_generations_on_disk,
-               P_blank_message, P_empty_message };
+               P_blank_message, P_empty_message, P_default_formatter };
 const char* const kProbeNames[] = { "rollover", "rollover_with_all_generations_present", "restart_on_empty_generation0",
                "restart_on_partly_filled_generation0", "restart_on_full_generation0", "crash_in_write_call",
                "crash_between_close_and_first_rename", "crash_between_two_renames", "crash_after_last_rename_before_open",
@@ -47,7 +47,7 @@ const char* const kProbeNames[] = { "rollover", "rollover_with_all_generations_p
                "inflight_message_absent_after_crash", "directory_created_by_policy", "max_gen_one", "oversized_single_message",
                "recovery_rolled_twice",
                "through_files_handler_wrapper", "entry_longer_than_1000_bytes", "new_file_series_after_date_change", "ten_or_more_generation_files_on_disk",
-               "message_of_blanks_only", "empty_message" };
+               "message_of_blanks_only", "empty_message", "default_formatter_of_the_library" };
 
 /// formatter for the files::Handler wrapper: the message text as it is (the
 /// default formatter adds fields and a line end of its own)
@@ -91,6 +91,7 @@ struct Run
    /// wrapper mode: the policy is owned by a files::Handler<P> log destination
    std::unique_ptr< celma::log::detail::ILogDest>   wrapped;
    bool             wrapper = false;
+   bool             default_formatter = false;   // wrapper mode: the library's own formatter
    bool             degraded = false;
    int              rolls_seen = 0;
    int              restarts_seen = 0;
@@ -211,7 +212,7 @@ struct Run
          wrapped.reset( new lf::Handler< lf::Counted>( new lf::Counted( makeDefinition(), limit, max_gen)));
       else
          wrapped.reset( new lf::Handler< lf::MaxSize>( new lf::MaxSize( makeDefinition(), limit, max_gen)));
-      wrapped->setFormatter( new PlainFormat());
+      if (!default_formatter) wrapped->setFormatter( new PlainFormat());
    }
 
    void writeSink( const std::string& text, int line_nbr)
@@ -254,10 +255,39 @@ struct Run
          auto  it = names.find( path);
          std::string  content;
          fs::getFile( path, content);
+         if (default_formatter) content = withoutFields( content);
          if (it != names.end()) f[ it->second] = content;
          else if (strays) strays->push_back( path);
       }
       return f;
+   }
+
+   /// default formatter of the library: "pid|file|function|line|class|level|
+   /// error number|text". The oracle works on the texts; completely empty
+   /// lines (no fields) are no entries and are left out.
+   static std::string withoutFields( const std::string& content)
+   {
+      std::string  out;
+      size_t       pos = 0;
+      while (pos < content.size())
+      {
+         size_t  e = content.find( '\n', pos);
+         const bool  terminated = (e != std::string::npos);
+         if (!terminated) e = content.size();
+         std::string  line = content.substr( pos, e - pos);
+         pos = e + (terminated ? 1 : 0);
+         if (line.empty() && terminated) continue;
+         size_t  bar = 0;
+         for (int k = 0; k < 7 && bar != std::string::npos; ++k)
+         {
+            bar = line.find( '|', bar);
+            if (bar != std::string::npos) ++bar;
+         }
+         if (bar != std::string::npos) line.erase( 0, bar);
+         out += line;
+         if (terminated) out += "\n";
+      }
+      return out;
    }
 
    static size_t lineCount( const std::string& s)
@@ -821,8 +851,11 @@ struct Run
       name_variant = static_cast< int>( nm.geti( "variant", 0));
       precreate = nm.geti( "precreate", 1) != 0;
       wrapper = plan.geti( "wrapper", 0) != 0;
+      // (the fields in front of the text do not fit the byte limits of this harness)
+      default_formatter = wrapper && counted && plan.geti( "default_formatter", 0) != 0;
       use_date = (name_variant == 3);
       if (wrapper) st.probe( P_files_handler_wrapper);
+      if (default_formatter) st.probe( P_default_formatter);
       if (max_gen == 1) st.probe( P_max_gen_one);
 
       fs::reset();
@@ -1133,6 +1166,9 @@ public:
       const bool      strict_len = cfg.chance( 3, 4);   // messages always fit the byte limit
       const bool      long_entries = cfg.chance( 1, 8);
       const bool      blank_entries = (mode <= 2) && cfg.chance( 1, 3);
+      // the library's own formatter instead of the text-only one: fault-free
+      // histories only (a line torn inside the fields could not be attributed)
+      if (plan.geti( "wrapper") != 0 && counted && mode <= 2 && cfg.chance( 1, 2)) plan[ "default_formatter"] = true;
       const size_t    max_ops = thorough ? 40 : 24;
       size_t          nops = 1 + static_cast< size_t>( wl.below( wl.chance( 1, 3) ? 6 : max_ops));
       if (many_generations) nops = max_ops;
